@@ -229,6 +229,8 @@ struct nng_aio {
 	bool         a_expiring;   // Expiration in progress
 	bool         a_expire_skip; // Completed while in an expiry batch
 	bool         a_use_expire; // Use expire instead of timeout
+	bool         a_timeout_dflt; // a_timeout holds the owner's default for
+	                             // this operation (user said DEFAULT)
 	bool         a_abort;      // Task was aborted
 	bool         a_init;       // Initialized this
 	bool         a_stopped;    // Debug - set when we finish stopped
